@@ -155,7 +155,23 @@ def changes(c, rng):
         if u and u[-1] in where and where[u[-1]] == tuple(u[:-1]) and tuple(u[:-1]) not in imported and tuple(u[:-1]) != tuple(own):
             x = tuple(u[:-1])
             names_there = set(d[2] for d in modmap[x][5][1:]) | set(xt[1] for xt in modmap[x][3][1:])
-            cand = sorted(n_ for n_ in mentioned if n_ in where and where[n_] != x and n_ not in names_there and where[n_] != tuple(own))
+            # … but not a name that a REACHABLE item of that module mentions itself (its binding there would change, and with it
+            # the signatures the observed module inherits from that item: that is a change inside the reachable set)
+            used_in_x = set()
+            for (mp_r, n_r) in R:
+                if mp_r == x:
+                    for d_ in modmap[x][5][1:]:
+                        if d_[2] == n_r:
+                            used_in_x |= set(mentioned_names(d_))
+                    for im_ in modmap[x][6][1:]:
+                        if im_[1] == n_r:
+                            for f_ in im_[3:]:
+                                for a_ in fn_args(f_):
+                                    if not isinstance(a_, Sym): used_in_x |= set(names_in_type(a_[2]))
+                                if fn_ret(f_) is not None: used_in_x |= set(names_in_type(fn_ret(f_)))
+            for xv_ in modmap[x][4][1:]:
+                used_in_x |= set(names_in_type(xv_[3]))
+            cand = sorted(n_ for n_ in mentioned if n_ in where and where[n_] != x and n_ not in names_there and where[n_] != tuple(own) and n_ not in used_in_x)
             if cand:
                 n_ = cand[0]
                 for idx, ent in enumerate(me[1:]):
